@@ -84,7 +84,7 @@ impl From<ResponseValidationError> for TransportResponseError {
 pub(crate) enum TransportRequest<'a> {
     Request(FragmentInfo, Request<'a>),
     LinkLayerMessage,
-    Error(FragmentAddr, TransportRequestError),
+    Error(FragmentInfo, TransportRequestError),
 }
 
 #[derive(Copy, Clone, Debug, PartialEq)]
